@@ -37,6 +37,13 @@ Oracle (the statement executed on the IMPLEMENTATION, every public class and nes
      FALCON, TD_FALCON; every slot) around an ALREADY FITTED module of every elementary class: all instance attributes
      of every module handed over are bit-identical after the construction (also when it raises) and after a read-only
      get_params of the host, and the module continues (partial_fit of one more row) like a deepcopy taken before
+ (q) in-place writes into the arrays a public ACCESSOR handed out (`for w in model.W: w *= 0.5`, `model.W[j][:] = …`,
+     results of get_cluster_centers() / get_channel_centers(k), labels_ / labels_a / … of hosts and of the modules inside
+     them, every public array-valued attribute or property of every object of a nesting) applied identically to a fitted
+     model, its pickle round trip and its deepcopy, followed by the same partial_fit / predict calls: every write is
+     accepted alike and reaches the stored state of the original exactly where it reaches that of the copies (an accessor
+     that builds fresh arrays in a copy — FusionART.W — builds fresh arrays in the original: the write reaches no model),
+     and the three continue identically (outcomes, predictions, learned state, accessor values)
 Tie: `params run` op sequences (get/set/attr/setattr, valid and malformed values) on the
 eight elementary classes against the Lean model; the Lean class table against the table
 re-extracted from the source (inspect.signature, default-instance get_params, AST of
@@ -58,9 +65,9 @@ from .. import gen, specs
 from ..common import q2s, mat_q, vec_q, run_driver
 from ..impl import make, quiet, exc_enum, full_snapshot, eq_snap, params_tree
 
-RULE = ("cases = (subject = public class or nesting, sub-check a..p, hyper-parameter spec(s), data stream, history of "
+RULE = ("cases = (subject = public class or nesting, sub-check a..q, hyper-parameter spec(s), data stream, history of "
         "fit/partial_fit/predict calls, copy point / interleaving / mutation / route by which values reach the estimator); a case is non-trivial when at least one "
-        "training call committed >= 2 categories (b, c, e, h, i, j, k, l, m, n, o, p); protocol-only cases (a, d, g) and tie lines with >= 2 commands count as non-trivial; "
+        "training call committed >= 2 categories (b, c, e, h, i, j, k, l, m, n, o, p, q); protocol-only cases (a, d, g) and tie lines with >= 2 commands count as non-trivial; "
         "distinct by hash of all of it")
 
 BETA_BASES = ["FuzzyART", "HypersphereART", "EllipsoidART", "ART2A"]
@@ -2093,8 +2100,9 @@ def _as_cmp(v):
 
 SUBCHECKS = [("a", chk_a_get_params), ("b", chk_b_roundtrip), ("c", chk_c_twins), ("c-used", chk_c_used_twins), ("d", chk_d_reject),
              ("e", chk_e_attrs), ("g", chk_g_clone), ("h", chk_h_ownership), ("i", chk_i_copies), ("j", chk_j_interleave)]
-# situations added for seeded changes C05k / C15k / C19k / C19l (shallow-copy checkpoints, a wrapper's own parameters changed
-# after construction, numpy floating scalars as values, zero-row / one-row batches on a trained estimator); they run on the first EXTRA_ROUNDS indices of every subject
+# situations added for seeded changes C05k / C15k / C19k / C19l / C19n (shallow-copy checkpoints, a wrapper's own parameters changed
+# after construction, numpy floating scalars as values, zero-row / one-row batches on a trained estimator, in-place writes into
+# accessor results — (q), appended below its definition); they run on the first EXTRA_ROUNDS indices of every subject
 EXTRA_ROUNDS_QUICK = 6
 EXTRA_SUBCHECKS = [("k", chk_k_shallow_checkpoint), ("l", chk_l_own_params), ("m", chk_m_numpy_scalars), ("n", chk_n_tiny_batches)]
 NEEDS_SKLEARN = {"a", "b", "c", "c-used", "d", "e", "g", "l", "m"}
@@ -2732,24 +2740,70 @@ def _acc_name(acc) -> str:
 
 
 def _write_into(leaves: list, idiom: str, j: int):
-    """the caller post-processes, in place, the arrays an accessor handed out"""
-    def one(a, how):
-        if a.size == 0:
-            return
-        if how == "scale" and a.dtype.kind == "f":
-            a *= 0.5                                      # for w in model.W: w *= 0.5
-        elif a.dtype.kind == "f":
-            a[...] = (1.0 - a)[::-1]                      # model.W[j][:] = <other values of the same shape>
-        else:
-            a[...] = np.roll(a, 1, axis=0) if how == "scale" else a[::-1].copy()
+    """the caller post-processes, in place, the arrays an accessor handed out.  The values written are values the model
+    could hold: halved weights (`w *= 0.5`), the contents of another array of the same result (`res[j][:] = res[k]`: a
+    category given another category's weights, a rotation of all of them), integer arrays rolled / reversed — never
+    values that make a weight vector meaningless (a caller who does that is on his own)"""
+    leaves = [a for a in leaves if a.size]
+    if not leaves:
+        return
+
+    def other_values(k):
+        a = leaves[k]
+        for step in range(1, len(leaves)):
+            b = leaves[(k + step) % len(leaves)]
+            if b.shape == a.shape and b.dtype == a.dtype and not np.array_equal(a, b):
+                return b.copy()
+        return a * 0.5 if a.dtype.kind == "f" else a[::-1].copy()
     if idiom == "every:scale":
-        for a in leaves:
-            one(a, "scale")
-    elif idiom == "one:assign":
-        one(leaves[j % len(leaves)], "assign")
+        for a in leaves:                                  # for w in model.W: w *= 0.5
+            if a.dtype.kind == "f":
+                a *= 0.5
+            else:
+                a[...] = np.roll(a, 1, axis=0)
+    elif idiom == "one:assign":                           # model.W[j][:] = <weights of another category>
+        k = j % len(leaves)
+        leaves[k][...] = other_values(k)
     else:                                                 # every:assign
-        for a in leaves:
-            one(a, "assign")
+        vals = [other_values(k) for k in range(len(leaves))]
+        for a, v in zip(leaves, vals):
+            a[...] = v
+
+
+class _call_limit:
+    """a later call that does not return within `seconds` becomes impl.Hang (reported by `outcome` as 'hang'); the
+    framework's own watchdog timer is put back afterwards"""
+
+    def __init__(self, seconds: float):
+        self.seconds = seconds
+
+    def __enter__(self):
+        import signal
+        from ..impl import Hang
+        sec = self.seconds
+
+        def handler(_sig, _frm):
+            raise Hang(f"no return within {sec}s")
+        try:
+            self.old = signal.signal(signal.SIGALRM, handler)
+        except ValueError:                                # not the main thread
+            self.old = None
+            return self
+        self.timer = signal.setitimer(signal.ITIMER_REAL, sec)
+        return self
+
+    def __exit__(self, *exc):
+        import signal
+        if self.old is not None:
+            signal.setitimer(signal.ITIMER_REAL, 0)
+            signal.signal(signal.SIGALRM, self.old)
+            if self.timer[1] > 0:
+                signal.setitimer(signal.ITIMER_REAL, self.timer[1], self.timer[1])
+        return False
+
+
+def _hung(outs) -> list:
+    return [k for k, o in enumerate(outs) if o[0] == "exc" and o[1] == "hang"]
 
 
 def chk_q_accessor_writes(c: Case):
@@ -2789,8 +2843,8 @@ def chk_q_accessor_writes(c: Case):
     rep = {"spec": spec, "earlier_ops": ops_replay(pre), "copies": ["pickle round trip", "copy.deepcopy"],
            "writes": [{"object": p["path"], "accessor": _acc_name(p["acc"]), "class": p["owner"],
                        "idiom": {"every:scale": "for a in <result>: a *= 0.5 (integer arrays: rolled by one)",
-                                 "one:assign": f"<result>[{p['j']} % len][...] = (1 - a)[::-1] (integer arrays: reversed)",
-                                 "every:assign": "for a in <result>: a[...] = (1 - a)[::-1] (integer arrays: reversed)"}[p["idiom"]]}
+                                 "one:assign": f"<result>[{p['j']} % len][...] = <result>[next differing entry of the same shape] (none: halved / reversed)",
+                                 "every:assign": "every entry of <result> overwritten with the next differing entry's old contents (none: halved / reversed)"}[p["idiom"]]}
                       for p in plan],
            "later_ops": ops_replay(rest),
            "idiom": "the same accessor reads, in-place writes into their results and later calls on the fitted model, on its "
@@ -2844,7 +2898,15 @@ def chk_q_accessor_writes(c: Case):
         c.ctx.cov.hit("q:write-told-original-and-copy-apart")
         return
     # ---- the same later calls, then the same accessor reads
-    outs = {who: run_ops(S, m, rest) for who, m in models.items()}
+    outs = {}
+    for who, m in models.items():
+        with _call_limit(4.0):
+            outs[who] = run_ops(S, m, rest)
+    if _hung(outs["original"]) and all(_hung(outs[who]) == _hung(outs["original"]) for who in outs):
+        # halved / permuted weights can be weights no training produces; a search that does not terminate on them is
+        # not this property's business as long as the copies do exactly the same
+        c.ctx.cov.hit("q:later-call-does-not-return-on-all-three-alike")
+        return
     chk_f_returns_self(c, outs["original"], rest, spec)
     for who in ("pickle", "deepcopy"):
         d = first_diff(outs["original"], outs[who])
